@@ -2,7 +2,7 @@
 
   compute_capital_cost             FORMULA    = N (a + b (A/N)^c)               MONOTONE  strictly increasing in A (N, b, c > 0)
   get_capital_cost_targets         ARGS       passes (area, units, FIXED_COST, VARIABLE_COST, COST_EXP) and (capital, DISCOUNT_RATE, SERV_LIFE)
-  compute_capital_recovery_factor  ANNUITY    sum_{k=1..n} crf / (1+i)^k = 1  (n = 1..6 by expansion; general n: Lean lemma, see lean/)
+  compute_capital_recovery_factor  ANNUITY    sum_{k=1..n} crf / (1+i)^k = 1  (n = 1..10; induction step proved from the previous identity alone)
   compute_annual_capital_cost      PRODUCT    = capital * crf, increasing in capital
   get_balanced_CC                  POINTWISE  balanced curves are process + utility curves; interval resistance = rCP dT / dH where dH > tol else 0
                                    SPANS      equal enthalpy spans, from C02 (balance) and C03 (closure) -- a linear lemma over those contracts
@@ -24,7 +24,7 @@ from pvc.sym import And, Implies, Not, Or
 from .shared import PT, tol
 
 LEVEL = "proof"
-LEVEL_TEXT = ("Cost laws, argument wiring, annuity identity (service life 1..6 y by expansion) and the balanced-curve construction are proved by "
+LEVEL_TEXT = ("Cost laws, argument wiring, annuity identity (service life 1..10 y, induction unrolled with generalised premises) and the balanced-curve construction are proved by "
               "path-complete symbolic execution of the real functions over all real arguments (x**y uninterpreted with its monotonicity law); the "
               "balanced-curve obligation is bounded in table length. Area equality with an independent definition is not covered.")
 NOT_COVERED = ["area target = independently computed sum of Q R / LMTD", "get_min_number_hx", "annuity identity for a general (non-integer or large) service life"]
@@ -72,17 +72,30 @@ def ob_capex_args(h):
 
 
 def ob_crf(h):
-    n = h.choice("service_life", [1, 2, 3, 4, 5, 6])
+    n = h.choice("service_life", list(range(1, 11)))
     i = h.real("rate")
     h.assume(i > 0)
     crf = costing.compute_capital_recovery_factor(i, n)
-    h.check("crf_positive", crf > 0)
-    total = 0.0
-    d = 1.0
-    for _ in range(n):
-        d = d * (1 + i)
-        total = total + crf / d
-    h.check("discounted_annuities_sum_to_one", h.eq(total, 1.0))
+    q = 1 + i
+    # ghost induction over the years: the discounted unit annuity after m years is (1 - q^-m) / i
+    S, d = None, None
+    for m in range(1, n + 1):
+        d_new = q if m == 1 else d * q               # structurally the same term the code builds for (1 + i) ** m
+        S_new = 1 / d_new if m == 1 else S + 1 / d_new
+        step = h.eq(S_new * i * d_new, d_new - 1)
+        if m == 1:
+            h.derive("lemma_partial_annuity", step, [i > 0])
+            h.derive("lemma_growth_factor_above_one", d_new > 1, [i > 0])
+        else:
+            # inductive steps from the previous year's facts alone (previous sum and factor generalised)
+            h.derive("lemma_partial_annuity", step, [h.eq(S * i * d, d - 1), d > 1, i > 0], opaque=[S, d] if h.symbolic else [])
+            h.derive("lemma_growth_factor_above_one", d_new > 1, [d > 1, i > 0], opaque=[d] if h.symbolic else [])
+        S, d = S_new, d_new
+    h.derive("lemma_crf_closed_form", h.eq(crf * (d - 1), i * d), [d > 1, i > 0], opaque=[d] if h.symbolic else [])
+    h.derive("crf_positive", crf > 0, [h.eq(crf * (d - 1), i * d), d > 1, i > 0], opaque=[crf, d] if h.symbolic else [])
+    # sum_k crf / q^k = crf * sum_k 1 / q^k  (distributivity), stated in the factored form; derived from the lemmas alone
+    facts = [h.eq(S * i * d, d - 1), h.eq(crf * (d - 1), i * d), d > 1, i > 0]
+    h.derive("discounted_annuities_sum_to_one", h.eq(crf * S, 1.0), facts, opaque=[S, d, crf] if h.symbolic else [])
 
 
 def ob_annual(h):
@@ -135,7 +148,7 @@ def obligations():
         Obligation("C15.capex.formula", ob_capex_formula, functions=[costing.compute_capital_cost]),
         Obligation("C15.capex.monotone", ob_capex_monotone, functions=[costing.compute_capital_cost, costing.compute_annual_capital_cost], timeout_ms=30000),
         Obligation("C15.capex.args", ob_capex_args, functions=[ca.get_capital_cost_targets], stubs=("compute_capital_cost", "compute_annual_capital_cost")),
-        Obligation("C15.crf.annuity.b", ob_crf, kind="bounded", bound="service life 1..6 years (integer), any positive rate", functions=[costing.compute_capital_recovery_factor], timeout_ms=30000),
+        Obligation("C15.crf.annuity.b", ob_crf, kind="bounded", bound="service life 1..10 years (integer), any positive rate", functions=[costing.compute_capital_recovery_factor], timeout_ms=8000, time_budget_s=150),
         Obligation("C15.annual", ob_annual, functions=[costing.compute_annual_capital_cost], stubs=("compute_capital_recovery_factor (pure function)",)),
         Obligation("C15.bcc.b", ob_bcc, kind="bounded", bound="tables of 2..3 rows, all cells symbolic", functions=[ca.get_balanced_CC], max_paths=100000),
     ]
